@@ -50,12 +50,17 @@ func newVNode(genesis *pos.Validators, mainDB kvdb.Store, epochDBs map[idx.Epoch
 		n.events = vEvents{}
 	}
 	crit := func(err error) { panic(err) }
+	served := map[idx.Epoch]bool{}
 	getDB := func(epoch idx.Epoch) kvdb.Store {
-		if db, ok := n.epochDBs[epoch]; ok {
+		// the store asks for an epoch's database a second time only after it dropped the first one
+		// (Reset into the same epoch number): a producer then opens a fresh database
+		if db, ok := n.epochDBs[epoch]; ok && !served[epoch] {
+			served[epoch] = true
 			return db
 		}
 		db := memorydb.New()
 		n.epochDBs[epoch] = db
+		served[epoch] = true
 		return db
 	}
 	n.store = NewStore(n.mainDB, getDB, crit, LiteStoreConfig())
